@@ -240,7 +240,7 @@ def nextFor (labels : List Lbl) (optimizeEnding : Bool) (rid : Nat) (items : Lis
       if !guaranteed && items.length > i + 1 && (flowCanNotEnd || !ESV.Gen.opsEndFlow.contains real)
       then [(level, i+1)] else []
     let holdExtra : List (Nat × Nat) :=
-      if real == ESV.Gen.op_hold && items.length > i + 1 then
+      if real == ESV.Gen.op_hold && items.length > i + 1 && !n1.contains (level, i+1) then
         match items[i+1]? with
         | some nx => if ESV.Gen.opsEndFlow.contains (itemName nx) then [(level, i+1)] else []
         | none => []
